@@ -24,7 +24,7 @@ from ..common import Check, MachineryError, SPEC, OUT
 from .. import tlc
 
 PID = "C18"
-REAL = {"b": "tb"}
+REAL = {"b": "tb", "e": "te"}        # tb exists next to the target t, te does not: siblings whose names extend the target's
 SPARE = ["s%02d" % i for i in range(1, 17)]   # directories between the sandbox box and the model's root: `..` escapes end here
 
 
@@ -220,6 +220,8 @@ def mechanism(mode, inp):
     if any(lex_outside(m["n"]) for m in inp):
         return "dotdot-in-name"
     if mode == "manifest":
+        if any(m["k"] == "link" and m["n"] == ["conf"] for m in inp):
+            return "definition-written-through-linked-conf"
         return "through-linked-folder" if any(m["k"] == "link" for m in inp) else "other"
     if any(m["k"] == "hard" and lex_outside(m["t"]) for m in inp):
         return "hardlink-target-outside"
@@ -375,9 +377,6 @@ def expected_tree(mode, case):
         p = e["p"]
         if p[:3] == ["l2", "l3", "t"] and len(p) > 3:
             exp[tuple(REAL.get(x, x) for x in p[3:])] = "sym" if e["k"] == "sym" else "file" if e["k"] in ("file", "hard") else "dir"
-    if mode == "manifest":
-        exp[("conf",)] = "dir"
-        exp[("conf", "flowir_package.yaml")] = "file"
     return exp
 
 
@@ -477,8 +476,14 @@ def families(thorough):
            # two chained symbolic links (b -> ., a -> b/..) that look confined one by one, then members through them / re-using
            # a name; quick executes every hostile input of the family and every 10th of the others, thorough all of them
            ("archive", "chain" if thorough else "chain-sampled", chain),
-           ("manifest", "two", dict(Mode='"manifest"', MaxMembers="2", Segs='{"a", "c", "..", ""}',
+           # c: a new unrelated name outside, e: a new sibling whose name has the target's name as prefix
+           ("manifest", "two", dict(Mode='"manifest"', MaxMembers="2", Segs='{"a", "c", "e", "..", ""}',
                                     Srcs='{"p"}' if not thorough else '{"p", "q"}')),
+           # b: the EXISTING sibling with such a name (keys into it need 3 segments)
+           ("manifest", "sibling", dict(Mode='"manifest"', MaxMembers="1", MaxLen="3", Segs='{"b", "c", ".."}')),
+           # an entry literally called conf: the workflow definition is written into what it deployed
+           ("manifest", "conf", dict(Mode='"manifest"', MaxMembers="2", Segs='{"a", "conf", ".."}')),
+           ("archive", "sibling", dict(MaxMembers="1", MaxLen="3", Segs='{"a", "b", "e", ".."}', Kinds='{"file", "dir"}')),
            ("stage", "two", dict(Mode='"stage"', MaxMembers="2"))]
     if thorough:
         fam += [("archive", "names3", dict(MaxMembers="2", MaxLen="3", Segs='{"a", "..", ""}', LinkNameLen="2", LinkSegs='{"a", ".."}')),
